@@ -519,7 +519,7 @@ var placeTemplates = []string{
 	"if \x01t := \x00\x02; t {\n%Ja = 0\n%I}",
 	"for \x01j := \x00\x02; j < 2; j++ {\n%Ja = 0\n%I}",
 	"for j := 0; j < 2; \x01j += \x00\x02 {\n%Ja = 0\n%I}",
-	"if t := 1; t == a {\n%Ja = 0\n%I} else if \x01u := [\n%J\x00]\x02; u {\n%Ja = 1\n%I}",
+	"if t := 1; t == -5 {\n%Ja = 0\n%I} else if \x01u := [\n%J\x00]\x02; u {\n%Ja = 1\n%I}",
 	// function levels only (see numPlaceAll)
 	"return \x00",
 	"return [a,\n%J\x00]",
